@@ -39,7 +39,7 @@ impl HasKey<Local> for V1 {
 }
 
 impl LocalKey {
-    fn keys(&self, nonce: &[u8; 32]) -> (ctr::Ctr64BE<aes::Aes256>, hmac::Hmac<sha2::Sha384>) {
+    fn keys(&self, nonce: &[u8; 32]) -> (ctr::Ctr128BE<aes::Aes256>, hmac::Hmac<sha2::Sha384>) {
         use cipher::KeyIvInit;
         use digest::Mac;
 
@@ -49,7 +49,7 @@ impl LocalKey {
         let ek = kdf(&self.0, b"paseto-encryption-key", n1);
         let ak = kdf(&self.0, b"paseto-auth-key-for-aead", n1);
 
-        let cipher = ctr::Ctr64BE::<aes::Aes256>::new(&ek, n2);
+        let cipher = ctr::Ctr128BE::<aes::Aes256>::new(&ek, n2);
         let mac = hmac::Hmac::new_from_slice(&ak).expect("key should be valid");
         (cipher, mac)
     }
